@@ -255,9 +255,18 @@ impl InterpValidate for InterpND {
     fn validate(&self) -> Result<(), String> {
         let n = self.ndim();
 
+        // Check grid dimensionality (first, so that indexing `grid` below is in bounds)
+        let grid_len = match self.grid.first() {
+            Some(first) if !first.is_empty() => self.grid.len(),
+            _ => 0,
+        };
+        if grid_len != n {
+            return Err(format!("Length of supplied `grid` must be same as `values` dimensionality: {:?} is not {n}-dimensional",
+            self.grid));
+        }
         // Check that each grid dimension has elements
         for i in 0..n {
-            // Indexing `grid` directly is okay because `grid == vec![]` is caught at compilation
+            // Indexing `grid` directly is okay because its length was checked above
             if self.grid[i].is_empty() {
                 return Err(format!(
                     "Supplied `grid` coordinates cannot be empty: dimension {i}, {:?}",
@@ -281,17 +290,6 @@ impl InterpValidate for InterpND {
                     self.values.shape()[i]));
             }
         }
-        // Check grid dimensionality
-        let grid_len = if self.grid[0].is_empty() {
-            0
-        } else {
-            self.grid.len()
-        };
-        if grid_len != n {
-            return Err(format!("Length of supplied `grid` must be same as `values` dimensionality: {:?} is not {n}-dimensional",
-            self.grid));
-        }
-
         Ok(())
     }
 }
